@@ -543,12 +543,20 @@ func runC08(c *core.Ctx) {
 				continue
 			}
 			empty := false
+			// the head as it stands when the loop is left (a deq on the way out has already advanced it)
+			var headNow *ir.Term
+			if p.End != nil && mq != nil {
+				headNow = p.End.MemAt(&ir.Term{Op: "faddr", Aux: qh.fHead, Args: []*ir.Term{mq}})
+			}
 			for _, b := range p.Events(ir.KBranch) {
 				at := b.Atom
 				if b.Pol && at.Op == "bin" && at.Aux == "==" && len(at.Args) == 2 {
 					for i := 0; i < 2; i++ {
 						o := at.Args[1-i]
 						if at.Args[i].IsNil() && o.Op == "load" && len(o.Args) == 1 && o.Args[0].Op == "faddr" && o.Args[0].Aux == qh.fHead && ir.Same(o.Args[0].Args[0], mq) {
+							empty = true
+						}
+						if at.Args[i].IsNil() && headNow != nil && ir.Same(o, headNow) {
 							empty = true
 						}
 					}
@@ -586,6 +594,40 @@ func runC08(c *core.Ctx) {
 			isFlush := len(sends) > 0
 			if isFlush && headRes == nil && qh.head == nil && len(sends) == 1 && isHeadValue(sends[0].val) {
 				headRes = sends[0].val
+			}
+			// the head's value carried into the iteration by a loop register (`for out, val = q.offer(ch); out != nil;
+			// out, val = q.offer(ch)`): every arrival at the loop head brings the value of the head as it stands then,
+			// and the send comes before the queue is touched
+			if isFlush && headRes == nil && len(sends) == 1 && sends[0].val.Op == "phi" && mq != nil {
+				if phi, isPhi := sends[0].val.Src.(*ssa.Phi); isPhi && phi.Block() == h {
+					carried, arrivals := true, 0
+					for _, q := range g.An.AllPaths() {
+						if q.To != h || q.End == nil {
+							continue
+						}
+						arrivals++
+						v := q.PhiOut[phi]
+						headNow := q.End.MemAt(&ir.Term{Op: "faddr", Aux: qh.fHead, Args: []*ir.Term{mq}})
+						good := v != nil && headNow != nil && v.Op == "load" && len(v.Args) == 1 && v.Args[0].Op == "load" && len(v.Args[0].Args) == 1 &&
+							v.Args[0].Args[0].Op == "faddr" && v.Args[0].Args[0].Aux == qh.fValue && ir.Same(v.Args[0].Args[0].Args[0], headNow)
+						if !good {
+							carried = false
+						}
+					}
+					sendAt, firstTouch := -1, len(p.Steps)
+					for i := range p.Steps {
+						st := &p.Steps[i]
+						if st == sends[0].step {
+							sendAt = i
+						}
+						if (isHelper(st, qh.deq) || isHelper(st, qh.enq) || st.Kind == ir.KStore && st.A[0].Op == "faddr" && ir.Same(st.A[0].Args[0], mq)) && i < firstTouch {
+							firstTouch = i
+						}
+					}
+					if carried && arrivals > 0 && sendAt >= 0 && sendAt < firstTouch {
+						headRes = sends[0].val
+					}
+				}
 			}
 			if isFlush && !(len(sends) == 1 && ir.Same(sends[0].ch, eg) && headRes != nil && ir.Same(sends[0].val, headRes) && nd == 1 && ne == 0) {
 				okFlush = false
